@@ -56,6 +56,7 @@ type Case struct {
 	Src     string   `json:"src,omitempty"`
 	Env     []string `json:"env,omitempty"`
 	Args    []string `json:"args,omitempty"`
+	NoArgs  bool     `json:"no_args,omitempty"` // Options.Args is an empty, non-nil slice
 	Stdin   string   `json:"stdin,omitempty"`
 	Special bool     `json:"special_stdio,omitempty"` // worker started with YAEGI_SPECIAL_STDIO=1
 	Auto    bool     `json:"auto_import,omitempty"`   // ImportUsed() then Eval(Src), in-process
@@ -94,7 +95,7 @@ func (r *runner) close() {
 }
 
 func (r *runner) job(c *Case) *yrun.Job {
-	return &yrun.Job{Src: c.Src, Env: c.Env, Args: c.Args, Stdin: c.Stdin, Decoy: c.Decoy}
+	return &yrun.Job{Src: c.Src, Env: c.Env, Args: c.Args, NoArgs: c.NoArgs, Stdin: c.Stdin, Decoy: c.Decoy}
 }
 
 // worker runs the case in a worker subprocess.
@@ -668,6 +669,24 @@ func streamCells(seed int64) []*Case {
 	add("os.Args/range", "stdout", "", func(tok string) *Case {
 		return &Case{Src: header("fmt", "os") + "func main() {\n\tfor i, a := range os.Args {\n\t\tfmt.Println(\"arg\", i, a)\n\t}\n}\n",
 			Args: []string{"prog", "x", tok}, Needle: "arg 2 " + tok}
+	})
+	// argument lists of every small length, the empty one included: an empty
+	// Options.Args is an argument list too, not a request for the host's
+	add("os.Args/empty", "stdout", "", func(tok string) *Case {
+		return &Case{Src: header("fmt", "os") + "func main() {\n\tfmt.Println(\"args\", len(os.Args), " + q(tok) + ")\n}\n",
+			NoArgs: true, Needle: "args 0 " + tok}
+	})
+	add("os.Args/one", "stdout", "", func(tok string) *Case {
+		return &Case{Src: header("fmt", "os") + "func main() {\n\tfmt.Println(\"args\", len(os.Args), os.Args[len(os.Args)-1])\n}\n",
+			Args: []string{tok}, Needle: "args 1 " + tok}
+	})
+	add("os.Args/three", "stdout", "", func(tok string) *Case {
+		return &Case{Src: header("fmt", "os") + "func main() {\n\tfmt.Println(\"args\", len(os.Args), os.Args[len(os.Args)-1])\n}\n",
+			Args: []string{"prog", "-x", tok}, Needle: "args 3 " + tok}
+	})
+	add("flag.CommandLine.Parse/empty", "stdout", "", func(tok string) *Case {
+		return &Case{Src: header("fmt", "flag", "os") + "func main() {\n\tflag.CommandLine.Parse(os.Args)\n\tn := 0\n\tflag.VisitAll(func(*flag.Flag) { n++ })\n\tfmt.Println(\"nargs\", flag.CommandLine.NArg(), n, " + q(tok) + ")\n}\n",
+			NoArgs: true, Needle: "nargs 0 0 " + tok}
 	})
 	// flag through the redirected flag.CommandLine
 	add("flag.CommandLine.Parse+Arg", "stdout", "", func(tok string) *Case {
